@@ -6,6 +6,8 @@ CONSTANTS
   ExtSets = {"none", "default", "all", "allrev"}
   IdKinds = {"fresh", "dup", "empty"}
   Peers = {}
+  Deferred = FALSE
+  MaxHosts = 2
   MaxHist = 99
 VIEW TourView
 ACTION_CONSTRAINT EmitBehaviour
